@@ -279,30 +279,35 @@ def cases(tier, seed):
             out.append(read_axes_case(anyty(), shape, ('it', 2, INT), ('sym',), isa))
             out.append(read_axes_case(anyty(), shape, ('sym',), ('it', 3, INT), isa))
         # ---- writes through one flat index tensor ---------------------------------------------------------------------
-        for (N, K) in ([(5, 2), (7, 3), (10, 4)] if not T else [(3, 1), (4, 2), (5, 2), (5, 5), (7, 3), (9, 4), (10, 4), (12, 4), (16, 3)]):
-            for op in INT_OPS:
+        for (N, K) in ([(5, 2), (6, 2), (7, 3), (10, 4)] if not T else [(3, 1), (4, 2), (5, 2), (6, 2), (5, 5), (7, 3), (9, 4), (10, 4), (12, 4), (16, 3)]):
+            for op in (INT_OPS if (T or N != 6) else ['+=']):
                 out.append(write_it_case(INT, (N,), (K,), op, rng.choice(['tensor', 'tensor', 'sum']), isa, ity=ity_for(K, N)))
-            out.append(write_it_case(INT, (N,), (K,), rng.choice(INT_OPS), rng.choice(['lit', 'sym']), isa, ity=ity_for(K, N)))
-            if N <= 7: out.append(write_it_case(INT, (N,), (K,), rng.choice(INT_OPS), rng.choice(['itview', 'seqview']), isa))
+            if T or N != 6: out.append(write_it_case(INT, (N,), (K,), rng.choice(INT_OPS), rng.choice(['lit', 'sym']), isa, ity=ity_for(K, N)))
+            if N <= 7 and (T or N != 6): out.append(write_it_case(INT, (N,), (K,), rng.choice(INT_OPS), rng.choice(['itview', 'seqview']), isa))
             ty = ftype()
-            for op in ((ALL_OPS if T else sample(rng, ALL_OPS, 2)) if N <= 7 else []):       # UF + symbolic scatter: 10 elements / 4 indices ran out of memory
-                out.append(write_it_case(ty, (N,), (K,), op, rng.choice(['tensor', 'lit', 'neg', 'sum']), isa, ity=ity_for(K, N)))
-            out.append(write_it_case(INT, (N,), (K,), rng.choice(INT_OPS), 'tensor', isa, macros=VEC))
-            if T and N <= 7: out.append(write_it_case(ftype(), (N,), (K,), rng.choice(ALL_OPS), rng.choice(['tensor', 'lit']), isa, macros=VEC))
+            # float compound operators (UF) through symbolic scatter addresses: <= 6 elements / 2 indices (7/3 and 10/4 ran
+            # out of memory or time on some ISAs); plain assignment (no arithmetic) at every size
+            fops = (ALL_OPS if T else sample(rng, ALL_OPS, 2)) if (N <= 6 and K <= 2) else ['=']
+            for op in fops:
+                out.append(write_it_case(ty, (N,), (K,), op, rng.choice(['tensor', 'lit', 'neg', 'sum']) if op != '=' else rng.choice(['tensor', 'lit', 'neg']), isa, ity=ity_for(K, N)))
+            if T or N != 6: out.append(write_it_case(INT, (N,), (K,), rng.choice(INT_OPS), 'tensor', isa, macros=VEC))
+            if T and N <= 6 and K <= 2: out.append(write_it_case(ftype(), (N,), (K,), rng.choice(ALL_OPS), rng.choice(['tensor', 'lit']), isa, macros=VEC))
         out.append(write_it_case(INT, (12,), (5,), '=', 'tensor', isa))
         out.append(write_it_case(FLT, (12,), (5,), '=', 'tensor', isa, macros=VEC))       # one full SSE vector + remainder in the vectorised scatter
         if isa in ('avx2', 'avx') or T: out.append(write_it_case(FLT, (16,), (9,), '=', 'tensor', isa, macros=VEC))
         for (shape, ishape) in ([((3, 4), (2, 2)), ((2, 3, 2), (1, 2, 2))] if not T else [((3, 4), (2, 2)), ((4, 4), (2, 2)), ((3, 5), (2, 2)), ((2, 3, 2), (1, 2, 2))]):
             for op in INT_OPS:
                 out.append(write_it_case(INT, shape, ishape, op, rng.choice(['tensor', 'lit', 'sum']), isa, ity=rng.choice(ITYS)))
-            out.append(write_it_case(ftype(), shape, ishape, rng.choice(ALL_OPS), rng.choice(['tensor', 'lit']), isa))
+            out.append(write_it_case(ftype(), shape, ishape, '=', rng.choice(['tensor', 'lit']), isa))
             out.append(write_it_case(INT, shape, ishape, rng.choice(INT_OPS), 'tensor', isa, macros=VEC))
+        out.append(write_it_case(ftype(), (2, 3), (1, 2), rng.choice(ALL_OPS[1:]), 'tensor', isa))
         # ---- writes with one index tensor per axis / mixed ------------------------------------------------------------
         for shape in ([(3, 4)] if not T else [(2, 3), (3, 4), (4, 4)]):
             M, N = shape
             for op in INT_OPS:
                 out.append(write_axes_case(INT, shape, ('it', 2, rng.choice(ITYS)), ('it', 2, rng.choice(ITYS)), op, rng.choice(['tensor', 'lit']), isa))
-            out.append(write_axes_case(ftype(), shape, ('it', 2, INT), ('it', 2, INT), rng.choice(ALL_OPS), 'tensor', isa))
+            out.append(write_axes_case(ftype(), shape, ('it', 2, INT), ('it', 2, INT), '=', 'tensor', isa))
+            if T or shape == (3, 4): out.append(write_axes_case(ftype(), (2, 3), ('it', 2, INT), ('int', rng.randrange(3)), rng.choice(ALL_OPS[1:]), 'tensor', isa))
             colr = [r for r in all_ranges(N, 2, neg=False) if rsize(*r) >= 2]
             rowr = [r for r in all_ranges(M, 2, neg=False) if rsize(*r) >= 2]
             out.append(write_axes_case(INT, shape, ('it', 2, rng.choice(ITYS)), ('fseq', rng.choice(colr)), rng.choice(INT_OPS), 'tensor', isa))
